@@ -57,6 +57,18 @@ sd = f"/verif/seeded/{prop.upper()}-{var}"
 shutil.rmtree(sd, ignore_errors=True); os.makedirs(f"{sd}/files", exist_ok=True)
 for f in files:
     os.makedirs(os.path.dirname(f"{sd}/files/{f}"), exist_ok=True); shutil.copy(f"{W}/{f}", f"{sd}/files/{f}")
+# /repo may have received fix commits since the seeder's worktree was cut: re-apply the patch to the
+# current /repo versions of the touched files so the overlay carries the seeded change and nothing else
+stage = f"/verif/build/seedrun/{prop}-{var}/stage"; shutil.rmtree(stage, ignore_errors=True)
+for f in files:
+    os.makedirs(os.path.dirname(f"{stage}/{f}"), exist_ok=True); shutil.copy(f"/repo/{f}", f"{stage}/{f}")
+rp = subprocess.run(f"patch -p1 -s -N --no-backup-if-mismatch < {O}/patch.diff", shell=True, cwd=stage, capture_output=True, text=True)
+res["patch_reapplied_to_current_repo"] = rp.returncode == 0
+if rp.returncode == 0:
+    for f in files: shutil.copy(f"{stage}/{f}", f"{sd}/files/{f}")
+else:
+    print("note: patch does not re-apply to current /repo; using the seeder worktree's files:", (rp.stdout + rp.stderr)[-300:])
+shutil.rmtree(stage, ignore_errors=True)
 # 2. without the change
 os.remove(f"{W}/{dest}")
 sh("git checkout -q -- .")
